@@ -9,6 +9,7 @@ Replays produced while a mutant is applied go to a scratch dir, never into /veri
 """
 import json, os, subprocess, sys, tempfile, shutil, time
 
+os.environ.setdefault("DBUS_SESSION_BUS_ADDRESS", "unix:path=/nonexistent/verif-no-session-bus")  # no dbus autolaunch by keyring probes
 ROOT = os.path.dirname(os.path.dirname(os.path.abspath(__file__)))
 CAT = json.load(open(os.path.join(ROOT, "mutants", "catalog.json")))
 
